@@ -855,7 +855,14 @@ def rule_twins(ctx):
     TW.twin_agreement(ctx, ctx.program, "TW", ("huginn_net_tcp",), floor=4)
 
 
+def rule_ip_views(ctx):
+    """R1: every framing (Ethernet, raw IP, NULL/loopback) hands the same bytes to the IPv4 and to the IPv6 reader"""
+    from . import _endpoints as E
+    E.ip_from_same_slice(ctx, ctx.program, "R1", ("huginn_net_tcp", "huginn_net"))
+
+
 def run(ctx):
+    rule_ip_views(ctx)
     rule_twins(ctx)
     rule_narrowing(ctx)
     rule_R8(ctx)
